@@ -396,7 +396,24 @@ func (c *Conn) reader(ctx context.Context) (_ MessageType, _ io.Reader, err erro
 
 	c.msgReader.reset(ctx, h)
 
-	return MessageType(h.opcode), c.msgReader, nil
+	return MessageType(h.opcode), &msgReadHandle{mr: c.msgReader, ctx: ctx, seq: c.msgReader.seq}, nil
+}
+
+// msgReadHandle is the io.Reader of a single message. The connection has one
+// msgReader that is reused for every message: a reader whose message has been
+// consumed completely (the next message may only be begun then) must not hand
+// out the bytes of a later message if the caller reads it again, for example
+// to see the io.EOF after an io.ReadFull of the known length.
+type msgReadHandle struct {
+	mr *msgReader
+	// ctx is the context of this message. mr.ctx belongs to whichever message
+	// is current and is written when the next one is begun.
+	ctx context.Context
+	seq uint64
+}
+
+func (h *msgReadHandle) Read(p []byte) (int, error) {
+	return h.mr.readMessage(h, p)
 }
 
 type msgReader struct {
@@ -413,6 +430,8 @@ type msgReader struct {
 	fin           bool
 	payloadLength int64
 	maskKey       uint32
+	// seq counts the messages begun, guarded by readMu.
+	seq uint64
 	// reading is set while Read is executing the readers below it.
 	reading bool
 
@@ -421,6 +440,7 @@ type msgReader struct {
 }
 
 func (mr *msgReader) reset(ctx context.Context, h header) {
+	mr.seq++
 	mr.ctx = ctx
 	mr.flate = h.rsv1
 	mr.limitReader.reset(mr.readFunc)
@@ -438,8 +458,8 @@ func (mr *msgReader) setFrame(h header) {
 	mr.maskKey = h.maskKey
 }
 
-func (mr *msgReader) Read(p []byte) (n int, err error) {
-	err = mr.c.readMu.lock(mr.ctx)
+func (mr *msgReader) readMessage(h *msgReadHandle, p []byte) (n int, err error) {
+	err = mr.c.readMu.lock(h.ctx)
 	if err != nil {
 		return 0, fmt.Errorf("failed to read: %w", err)
 	}
@@ -447,6 +467,12 @@ func (mr *msgReader) Read(p []byte) (n int, err error) {
 
 	if atomic.LoadInt32(&mr.c.readClose) == 1 {
 		return 0, fmt.Errorf("failed to read: %w", net.ErrClosed)
+	}
+
+	if h.seq != mr.seq {
+		// The message of this reader was read to its last byte and the next one
+		// has been begun since.
+		return 0, io.EOF
 	}
 
 	mr.reading = true
